@@ -66,6 +66,10 @@ func newRollingSetup(w *World, ro RollingOpts) *Setup {
 	case 1:
 		tp.OwnUpdated = true
 	}
+	if tp.OwnUpdated {
+		// ... with a status the controller's own verdict can coincide with
+		tp.OwnUpdatedAs = []string{"", "True", "False", "echo"}[t.Pick(4, "ownupdatedas")]
+	}
 	s := &Setup{W: w, Cfg: cfg, Opts: opts, TP: tp, HealthyStatus: healthyStatus}
 	s.OddObsGen = []string{"", "", "", "", "string", "fraction"}[t.Pick(6, "obsgen")]
 	w.Cfg["observedGeneration"] = map[string]string{"": "integer", "string": "string", "fraction": "fraction"}[s.OddObsGen]
@@ -110,6 +114,7 @@ func newRollingSetup(w *World, ro RollingOpts) *Setup {
 	s.Sig = compositeSig(cfg, opts)
 	s.Sig["method"] = method
 	s.Sig["ownUpdated"] = fmt.Sprint(tp.OwnUpdated)
+	w.Cfg["ownUpdatedAs"] = tp.OwnUpdatedAs
 	s.Sig["statusChecks"] = fmt.Sprint(len(rule.StatusChecks) > 0)
 	w.Cfg["parent"] = cfg.Parent.Kind
 	w.Cfg["rolling"] = kind.Kind + ":" + method
